@@ -56,3 +56,188 @@ func ZZC01Basic() {
 	}
 	CheckExact(res.Diags, exp, "C01 basic")
 }
+
+const c01SrcMethods = `package d
+
+//«annT»
+//«ctor»
+type T struct {
+	f int
+}
+
+//«annN»
+type N int
+
+type Q struct {
+	f int
+}
+
+func (t *T) PtrMethod(o T) {
+	t.f = 1 // SITE-PTRM
+	*t = o // SITE-RECVSET
+}
+
+func (t T) ValMethod() {
+	t.f = 2 // SITE-VALM
+}
+
+func (n *N) Inc() {
+	*n++ // SITE-RECVINC
+	*n = 5 // SITE-RECVSET2
+}
+
+func NewT() *T {
+	t := &T{}
+	func() {
+		t.f = 3 // SITE-CTORCLOSURE
+	}()
+	return t
+}
+
+func Nest(t *T, q *Q, c chan int) {
+	if t != nil {
+		for i := 0; i < 1; i++ {
+			switch {
+			case i == 0:
+				t.f = 4 // SITE-NESTED
+			}
+		}
+	}
+	func() {
+		t.f = 5 // SITE-CLOSURE
+	}()
+	defer func() {
+		t.f = 6 // SITE-DEFER
+	}()
+	go func() {
+		t.f = 7 // SITE-GO
+	}()
+	select {
+	case <-c:
+		t.f = 8 // SITE-SELECT
+	default:
+	}
+	q.f = 9 // SITE-UNANNOTATED
+	x := t.f // SITE-READ
+	_ = x
+	var v T
+	v.f = 10 // SITE-VALUE
+}
+`
+
+// ZZC01Methods: methods (pointer/value receiver), receiver overwrite / increment, every nesting construct.
+func ZZC01Methods() {
+	annT := nd.EnumPad("annT", " @immutable", " plain")
+	annN := nd.EnumPad("annN", " @immutable", " plain")
+	ctor := nd.EnumPad("ctor", " @constructor NewT", " @constructor Nest, PtrMethod", " plain")
+	holes := []nd.Hole{{"annT", annT}, {"annN", annN}, {"ctor", ctor}}
+	files := []nd.File{{Pkg: "zzmod/d", Name: "d.go", Src: c01SrcMethods}}
+	prog := nd.LoadProgram(files, holes)
+	res := Analyze(prog, config.Default(), "zzmod/d", Facts{}, "imm")
+
+	immT := nd.HasPrefix(annT, " @immutable")
+	immN := nd.HasPrefix(annN, " @immutable")
+	ctorNew := nd.HasPrefix(ctor, " @constructor NewT")
+	ctorNest := nd.HasPrefix(ctor, " @constructor Nest, PtrMethod")
+	src := c01SrcMethods
+	file := "/zz/zzmod/d/d.go"
+	inNest := nd.And(immT, nd.Not(ctorNest))
+	exp := []Expect{
+		// "a method whose name equals a constructor name" is a don't-care (DESIGN §4): PtrMethod sites are only
+		// constrained when PtrMethod is not listed
+		{file, nd.LineOf(src, "SITE-VALM"), "IMM01", immT},
+		{file, nd.LineOf(src, "SITE-RECVINC"), "IMM03", immN},
+		{file, nd.LineOf(src, "SITE-RECVSET2"), "IMM01", immN},
+		{file, nd.LineOf(src, "SITE-CTORCLOSURE"), "IMM01", nd.And(immT, nd.Not(ctorNew))},
+		{file, nd.LineOf(src, "SITE-NESTED"), "IMM01", inNest},
+		{file, nd.LineOf(src, "SITE-CLOSURE"), "IMM01", inNest},
+		{file, nd.LineOf(src, "SITE-DEFER"), "IMM01", inNest},
+		{file, nd.LineOf(src, "SITE-GO"), "IMM01", inNest},
+		{file, nd.LineOf(src, "SITE-SELECT"), "IMM01", inNest},
+		{file, nd.LineOf(src, "SITE-VALUE"), "IMM01", inNest},
+	}
+	if !ctorNest {
+		exp = append(exp,
+			Expect{file, nd.LineOf(src, "SITE-PTRM"), "IMM01", immT},
+			Expect{file, nd.LineOf(src, "SITE-RECVSET"), "IMM01", immT})
+	} else {
+		// don't-care region: accept either verdict on the two PtrMethod lines
+		var kept []Diag
+		for _, d := range res.Diags {
+			if d.Line != nd.LineOf(src, "SITE-PTRM") && d.Line != nd.LineOf(src, "SITE-RECVSET") {
+				kept = append(kept, d)
+			}
+		}
+		res.Diags = kept
+	}
+	CheckExact(res.Diags, exp, "C01 methods/nesting")
+}
+
+const c01SrcInitA = `package d
+
+//«annT»
+//«ctor»
+type T struct {
+	f int
+}
+
+var early = func() int {
+	t := &T{}
+	t.f = 10 // SITE-EARLY
+	return t.f
+}()
+`
+
+const c01SrcInitB = `package d
+
+func NewT() *T {
+	t := &T{}
+	t.f = 3 // SITE-CTOR
+	return t
+}
+
+var late = func() int {
+	t := new(T)
+	t.f = 11 // SITE-LATE
+	return t.f
+}()
+
+func After(t *T) {
+	t.f = 12 // SITE-AFTER
+}
+`
+
+const c01SrcInitC = `package d
+
+var other = func() int {
+	t := new(T)
+	t.f = 13 // SITE-OTHERFILE
+	return t.f
+}()
+`
+
+// ZZC01Init: writes in package-level initialisers: before any function of the package, after a constructor in the
+// same file, in a later file.
+func ZZC01Init() {
+	annT := nd.EnumPad("annT", " @immutable", " plain")
+	ctor := nd.EnumPad("ctor", " @constructor NewT", " plain")
+	holes := []nd.Hole{{"annT", annT}, {"ctor", ctor}}
+	files := []nd.File{
+		{Pkg: "zzmod/d", Name: "a.go", Src: c01SrcInitA},
+		{Pkg: "zzmod/d", Name: "b.go", Src: c01SrcInitB},
+		{Pkg: "zzmod/d", Name: "c.go", Src: c01SrcInitC},
+	}
+	prog := nd.LoadProgram(files, holes)
+	res := Analyze(prog, config.Default(), "zzmod/d", Facts{}, "imm")
+	immT := nd.HasPrefix(annT, " @immutable")
+	ctorNew := nd.HasPrefix(ctor, " @constructor NewT")
+	nd.Known("C01/init-after-constructor", nd.And(immT, ctorNew))
+	exp := []Expect{
+		{"/zz/zzmod/d/a.go", nd.LineOf(c01SrcInitA, "SITE-EARLY"), "IMM01", immT},
+		{"/zz/zzmod/d/b.go", nd.LineOf(c01SrcInitB, "SITE-CTOR"), "IMM01", nd.And(immT, nd.Not(ctorNew))},
+		{"/zz/zzmod/d/b.go", nd.LineOf(c01SrcInitB, "SITE-LATE"), "IMM01", immT},
+		{"/zz/zzmod/d/b.go", nd.LineOf(c01SrcInitB, "SITE-AFTER"), "IMM01", immT},
+		{"/zz/zzmod/d/c.go", nd.LineOf(c01SrcInitC, "SITE-OTHERFILE"), "IMM01", immT},
+	}
+	CheckExact(res.Diags, exp, "C01 package-level initialisers")
+}
